@@ -124,7 +124,15 @@ def main():
     pus = pucat.pu_defs()
     configs = [("chain", "share1"), ("own-column", "share1")] if tier == "quick" else [(p, "share1") for p in pus]
     jobs, keys = [], []
-    for sql, kc, ac in PROGRAMS:
+    import random as _random
+    rnd = _random.Random(seed() * 104729 + 9)
+    extra, seen = [], {p_[0] for p_ in PROGRAMS}
+    while len(extra) < (2 if tier == "quick" else 30):
+        q = pucat.random_dp_program(rnd, aligned_only=True, joins=(tier != "quick"))   # C09 quantifies over joins along the privacy-unit path only
+        if q[0] not in seen and "DISTINCT" not in q[0]:
+            seen.add(q[0])
+            extra.append(q)
+    for sql, kc, ac in list(PROGRAMS) + extra:
         for pun, prm in configs:
             jobs.append(dict(op="rewrite", mode="dp", tables=tabs, privacy_unit=pus[pun], dp=c01.PARAMS[prm], synthetic=False, sql=sql, render=True))
             keys.append((sql, kc, ac, pun, prm))
